@@ -464,16 +464,16 @@ Definition txn_diffs (o : mobj) (b : bk) : list Z :=
                                    then [] else [fst na]
                       | None => []
                       end) (o_atoms o).
-Definition exit_ok : act :=
-  (fun h o => match o_changed o with
-              | None => ok h o
-              | Some l => match o_backup o with
-                          | None => raise AttributeError h o            (* self._backup._atoms *)
-                          | Some b => ok h (set_changed o (Some (fold_right sadd l (txn_diffs o b))))
-                          end
-              end) ;;
-  flush false false ;; fix_structure ;; fix_stereo ;;
-  (fun h o => ok h (set_backup o None)).
+Definition note_setters : act := fun h o =>      (* if self._changed is not None: self._changed.update(atoms edited through setters) *)
+  match o_changed o with
+  | None => ok h o
+  | Some l => match o_backup o with
+              | None => raise AttributeError h o            (* self._backup._atoms *)
+              | Some b => ok h (set_changed o (Some (fold_right sadd l (txn_diffs o b))))
+              end
+  end.
+Definition drop_backup : act := fun h o => ok h (set_backup o None).
+Definition exit_ok : act := note_setters ;; flush false false ;; fix_structure ;; fix_stereo ;; drop_backup.
 
 (* ---- mol.atom(n).charge = c / .is_radical = r *)
 Definition set_charge (n v : Z) : act := fun h o =>
